@@ -341,7 +341,9 @@ def r3_read_requires_dependency(run, w):
   flow = Flow(un)
   ups = un.fi.params()
   adds = [(n, c) for (n, c, nm) in calls_E(un) if endswith(nm, "dep_graph.add_edge")]
-  recomp = nodes_calling_E(un, lambda c, nm, f: nm == "self._recompute")
+  # bringing the used node up to date: Engine._recompute, or its body written in place
+  recomp = nodes_calling_E(un, lambda c, nm, f: nm in ("self._recompute", "self._recompute_step",
+                                                      "self._update_loop"))
   ok = bool(adds) and bool(recomp)
   shape = bool(adds)
   for (n, c) in adds:
